@@ -42,4 +42,8 @@ PROPS = {
         "level": "exploration", "quick_s": 30, "thorough_s": 600, "thorough_seeds": 4,
         "rule": "inclusive fork with 1..4 conditional branches + optional default, branches of one or two tasks, some ending in their own end event, joined by an inclusive join; truth assignments drawn; answer plan reaches all finish orders; distinct = schedule hash; non-trivial = >= 2 branch tasks requested and a context switch",
     },
+    "C12": {
+        "level": "exploration", "quick_s": 40, "thorough_s": 900, "thorough_seeds": 4,
+        "rule": "C01 programs in which blocks are wrapped in 1..3 levels of embedded sub-process (also inside parallel and inclusive branches, and - known-finding stratum - inside loops); each run executes the wrapped program and its inlined twin generated from the same draws, under the same answer plan; oracle = token game on the wrapped run (sub-process boundaries transparent) + differential comparison with the twin; distinct = schedule hash; non-trivial = at least one wrapper and a context switch",
+    },
 }
